@@ -223,6 +223,12 @@ def main():
         add_parse("".join(rng.choice(ALPHA) for _ in range(rng.randint(maxlen + 1, 9))), "random")
     for extra in json.loads(sys.argv[4]) if len(sys.argv) > 4 else []:
         add_parse(extra, "witness")
+    # selectors that differ only inside a quoted value, or only by white space that separates two tokens: they are different
+    # selectors (a malformed one stays malformed) whatever was compiled before them in this process
+    for near in ["f(x='a  b') > y", "f(x='a b') > y", "f( x = 'a  b' )\n  > y", "f(x='ab') > y", "f(x=' a b ') > y",
+                 "f > ab", "f > a b", "f(x) as v", "f(x) a s v", "f(!x, !!ab)", "f(!x, ! !ab)", "f(x, y)", "f(x , y)", "f(xy)",
+                 "f(x=1=2) > y", "f(x=a=b) > y", "f(x) = 1 = 2", "f > y=2=2", "f(x~p(3)~p(4)) > y"]:
+        add_parse(near, "near-miss")
     # laws
     for law, mk in LAWS:
         for fn in FNS:
@@ -237,11 +243,21 @@ def main():
                     ro, robj = outcome(r)
                     cases.append({"id": len(cases), "kind": "law", "law": law, "ltext": l, "rtext": r, "ltoks": tokens(l),
                                   "rtoks": tokens(r), "lout": lo, "rout": ro, "same": lobj is not None and lobj is robj})
+    # near misses: two texts that differ only inside a quoted value, or only by white space that separates two tokens, are two
+    # different selectors (the second one possibly malformed) - also when the first was compiled earlier in this process
+    NEAR = [("f(x='a b') > y", "f(x='a  b') > y"), ("f(x='ab') > y", "f(x='a b') > y"), ("f > ab", "f > a b"),
+            ("f(x) as v", "f(x) a s v"), ("f(!x, !!ab)", "f(!x, ! !ab)"), ("f(xy)", "f(x y)")]
+    for l, r in NEAR:
+        lo, lobj = outcome(l)
+        ro, robj = outcome(r)
+        cases.append({"id": len(cases), "kind": "distinct", "law": "near-miss", "ltext": l, "rtext": r, "ltoks": tokens(l),
+                      "rtoks": tokens(r), "lout": lo, "rout": ro, "same": lobj is not None and lobj is robj})
     # white space
     bases = [c["text"] for c in cases if c["kind"] == "parse" and c["out"]["k"] != "X" and c["src"] == "grammar"]
     bases += [c["ltext"] for c in cases if c["kind"] == "law" and c["lout"]["k"] != "X"]
     rng.shuffle(bases)
-    for b in bases[:6000 if big else 600]:
+    bases = bases[:6000 if big else 600] + [r for l, r in NEAR if outcome(r)[0]["k"] != "X"]
+    for b in bases:
         bo, bobj = outcome(b)
         v, lexemes = respace(rng, b)
         vo, vobj = outcome(v)
@@ -280,6 +296,8 @@ def main():
            ("not-a-function", "three > y", "refuse", False, ["TypeError"]), ("builtin-fn", "cls > y", "refuse", False, ["TypeError"]),
            ("unknown-module-ref", "/no.such.module/fn > y", "refuse", False, ["CodeNotFoundError", "SelectorError"]),
            ("unknown-ref", "/harness.worlds.lifeworld/nothing > y", "refuse", False, ["CodeNotFoundError", "SelectorError"]),
+           ("ok-chained-eq", "fa(x=1=2) > y", "accept", False, R), ("ok-chained-eq2", "fa > y=2=2", "accept", False, R),
+           ("ok-chained-eq-call", "fa(x) = 1 = 2", "accept", False, R),
            ("ok-plain", "fa > y", "accept", False, R), ("tag-on-untagged", "fa > y:T", "refuse", False, R), ("ok-ctx", "fa(x) > y", "accept", False, R),
            ("ok-wrap", "fa(!x, !!y)", "accept", False, R), ("ok-override", "fa > y", "accept", True, R),
            ("ok-loopvar-unknown", "fa > #loop_zz", "refuse", False, R), ("list-selector", "fa, fa", "refuse", False, ["SyntaxError", "SelectorError"])]
